@@ -671,6 +671,14 @@ class Interp:
                 self.log("attr-store", st, obj=repr(obj), attr=target.attr, value=to_term(v))
         elif isinstance(target, ast.Subscript):
             obj = self.eval(target.value)
+            # a masked store into a positional (numpy) array held by a local name:  arr[mask] = value   ==   arr = where(mask, value, arr)
+            if isinstance(obj, Ser) and obj.frame is None and getattr(obj, "positional", False) and isinstance(target.value, ast.Name) and not isinstance(target.slice, ast.Slice):
+                key = self.eval(target.slice)
+                if isinstance(key, Ser) and key.ctx == obj.ctx and self.pm._boolish(key.term):
+                    vt = v.term if isinstance(v, Ser) else to_term(v)
+                    self.assign_name(target.value.id, Ser(T.ite(key.term, vt, obj.term), obj.ctx, None, None, positional=True))
+                    self.log("array-masked-store", st, name=target.value.id)
+                    return
             self.pm.setitem(obj, target, v, st)
         elif isinstance(target, ast.Starred):
             self.assign(target.value, v, st)
